@@ -41,6 +41,16 @@ def check(ctx, cfg):
     r3(ctx, cfg)
     r4(ctx, cfg)
     r5(ctx, cfg)
+    r6(ctx, cfg)
+
+
+def r6(ctx, cfg):
+    """"a query issued by a contract while it executes observes the effects of everything that completed earlier": the one keeper
+    write that is decided before a contract entry point runs and read back by that entry point's own queries - the new code id
+    of a migration - is stored before call_migrate, on the same address and store (C12.R3's obligations under C10's id;
+    instantiate's counterpart, register-before-call, is C11.R4 / C05)"""
+    from rules import C12
+    C12.r_migrate(ctx, cfg, R3="C10.R6", full=False)
 
 
 def r5(ctx, cfg):
